@@ -32,6 +32,7 @@ ASSUMPTIONS = {
     "H-WS": "hypothesis of property C19 itself: rules are written with whitespace-separated tokens, so the loaded expression tree has an `and`/`or` node iff ' and '/' or ' occurs in the antecedent text",
     "A-DEEPCOPY": "copy.deepcopy returns a fresh object graph isomorphic to the original with internal references redirected (no class of the package overrides the copy protocol: checked statically)",
     "A-LOADERS": "Antecedent.load / Consequent.load used through contracts: unload first; then either raise leaving the part unloaded, or store the structure parsed from the CURRENT text for the GIVEN engine (their bodies are the subject of C16)",
+    "A-GROUPED": "Aggregated.grouped_terms is used through the ghost sequence grouped(terms, aggregation) (one activation per term name, first-occurrence order, degrees folded with the aggregation operator); its body is exercised by a bounded stand-in only",
     "A-CTX": "contextlib.contextmanager / generator semantics: the code after `yield` runs exactly once on a normal exit; an exception of the with-body is raised at the `yield`, so only finally blocks and matching except handlers run; locals() at the first statement is self + the keyword parameters",
     "A-HEAPQ": "heapq.heappush/heappop implement a min-priority queue on tuples",
     "A-PY": "attribute lookup follows the MRO read from the source; no monkey-patching/metaclasses/__getattr__ on verified classes",
